@@ -448,6 +448,12 @@ RECURSIVE GlobObs(_, _, _)
 GlobObs(G, k, gl) == IF k > Len(G) THEN <<>> ELSE ObjObs(G[k].n, gl[G[k].n]) \o GlobObs(G, k + 1, gl)
 
 (* ======================= the machine ========================================= *)
+(* Every action is  <guard on the item on top of the continuation> /\ Apply(<outcome>)  where the    *)
+(* outcome is a state-level expression (TLC caches LET values there, not in action-level formulas):  *)
+(*   [t |-> "commit", S, env, k, fx]  the statement (or loop test) is complete                        *)
+(*   [t |-> "call", f, args, S]       it met a call of a generated function that has not run yet      *)
+(*   [t |-> "ret", v, S, fx]          return statement with the converted value                       *)
+(*   [t |-> "halt", st, why]          the execution ends with a non-ok status                         *)
 C == Cases[i]
 Prog == C.prog
 Running == i > 0 /\ status = "run"
@@ -470,128 +476,139 @@ S0 == IF Top.pend = <<>> THEN [gl |-> glob, cl |-> calls, np |-> 0]
       ELSE [gl |-> Top.snap.gl, cl |-> Top.snap.cl, np |-> 0]
 X0 == [env |-> Top.env, prog |-> Prog, ext |-> C.ext, pend |-> Top.pend]
 
-Halt(st, reason) ==
-    /\ status' = st /\ why' = reason /\ steps' = steps + 1
-    /\ UNCHANGED <<stack, glob, calls, ret>>
-
-\* the statement (or loop test) is complete: commit its effects
-Commit(S, env2, k2, fx) ==
-    IF S.np # Len(Top.pend) THEN Halt("stuck", "replay consumed a different number of calls")
-    ELSE /\ stack' = [stack EXCEPT ![Len(stack)] =
-                         [@ EXCEPT !.env = env2, !.k = k2, !.pend = <<>>, !.snap = NoSnap, !.fx = Join(@, fx)]]
-         /\ glob' = S.gl /\ calls' = S.cl /\ steps' = steps + 1
-         /\ UNCHANGED <<status, why, ret>>
+CommitO(S, env2, k2, fx) == [t |-> "commit", S |-> S, env |-> env2, k |-> k2, fx |-> fx]
+HaltO(st, reason) == [t |-> "halt", st |-> st, why |-> reason]
+\* the evaluation met a call that has not run yet (6.5.2.2p10: sequence point before the call), or cannot go on
+DivertO(r) == IF r.st = "call" THEN [t |-> "call", f |-> r.f, args |-> r.args, S |-> r.S] ELSE HaltO(r.st, r.why)
 
 RECURSIVE BindR(_, _, _, _)
 BindR(params, objs, j, env) == IF j > Len(params) THEN env ELSE BindR(params, objs, j + 1, (params[j].n :> objs[j]) @@ env)
 NewFrame(fi, Fd, objs) ==
     [f |-> fi, env |-> BindR(Fd.params, objs, 1, <<>>), k |-> <<Blk(Fd.body)>>, pend |-> <<>>, snap |-> NoSnap, fx |-> NoFx]
 
-\* the evaluation met a call that has not run yet (6.5.2.2: sequence point before the call), or cannot go on
-Divert(r) ==
-    IF r.st = "call"
-    THEN IF Len(stack) >= MaxDepth THEN Halt("fuel", "call depth")
-         ELSE /\ stack' = Append([stack EXCEPT ![Len(stack)] =
-                                     [@ EXCEPT !.snap = IF Top.pend = <<>> THEN [gl |-> glob, cl |-> calls] ELSE @]],
-                                 NewFrame(r.f, Prog.funcs[r.f], r.args))
-              /\ glob' = r.S.gl /\ calls' = r.S.cl /\ steps' = steps + 1
-              /\ UNCHANGED <<status, why, ret>>
-    ELSE Halt(r.st, r.why)
+Halt(st, reason) ==
+    /\ status' = st /\ why' = reason /\ steps' = steps + 1
+    /\ UNCHANGED <<stack, glob, calls, ret>>
+
+Apply(o) ==
+    CASE o.t = "halt" -> Halt(o.st, o.why)
+      [] o.t = "commit" ->
+           IF o.S.np # Len(Top.pend) THEN Halt("stuck", "replay consumed a different number of calls")
+           ELSE /\ stack' = [stack EXCEPT ![Len(stack)] =
+                                [@ EXCEPT !.env = o.env, !.k = o.k, !.pend = <<>>, !.snap = NoSnap, !.fx = Join(@, o.fx)]]
+                /\ glob' = o.S.gl /\ calls' = o.S.cl /\ steps' = steps + 1
+                /\ UNCHANGED <<status, why, ret>>
+      [] o.t = "call" ->           \* suspend the statement, remember where it started, run the callee
+           IF Len(stack) >= MaxDepth THEN Halt("fuel", "call depth")
+           ELSE /\ stack' = Append([stack EXCEPT ![Len(stack)] =
+                                       [@ EXCEPT !.snap = IF Top.pend = <<>> THEN [gl |-> glob, cl |-> calls] ELSE @]],
+                                   NewFrame(o.f, Prog.funcs[o.f], o.args))
+                /\ glob' = o.S.gl /\ calls' = o.S.cl /\ steps' = steps + 1
+                /\ UNCHANGED <<status, why, ret>>
+      [] o.t = "ret" ->
+           IF o.S.np # Len(Top.pend) THEN Halt("stuck", "replay consumed a different number of calls")
+           ELSE IF Len(stack) = 1
+           THEN /\ status' = "ok" /\ why' = "" /\ ret' = o.v.w /\ stack' = <<>>
+                /\ glob' = o.S.gl /\ calls' = o.S.cl /\ steps' = steps + 1
+           ELSE LET n == Len(stack) - 1 IN          \* the caller evaluates its statement again, replaying this call
+                /\ stack' = [SubSeq(stack, 1, n) EXCEPT ![n] =
+                                [@ EXCEPT !.pend = Append(@, [v |-> o.v, gl |-> o.S.gl, cl |-> o.S.cl,
+                                                               fx |-> Join(Top.fx, o.fx)])]]
+                /\ glob' = o.S.gl /\ calls' = o.S.cl /\ steps' = steps + 1
+                /\ UNCHANGED <<status, why, ret>>
 
 Truth(v) == ~WIsZero(v.w)
 
 (* ---- declarations and expression statements -------------------------------------- *)
-Decl ==
-    /\ Is("decl")
-    /\ LET r == Eval(St.e, X0, S0) IN
-       IF r.st # "ok" THEN Divert(r)
-       ELSE IF ~IsInt(r.v) THEN Halt("stuck", "pointer initialiser")
-       ELSE LET c == Conv(r.v, St.ty) IN                      \* 6.7.9p11: as simple assignment
-            IF c.st # "ok" THEN Halt(c.st, c.why)
-            ELSE Commit(r.S, (St.n :> Scal(St.ty, c.v.w)) @@ Top.env, KAdv, r.fx)
+DeclO ==
+    LET r == Eval(St.e, X0, S0) IN
+    IF r.st # "ok" THEN DivertO(r)
+    ELSE IF ~IsInt(r.v) THEN HaltO("stuck", "pointer initialiser")
+    ELSE LET c == Conv(r.v, St.ty) IN                      \* 6.7.9p11: as simple assignment
+         IF c.st # "ok" THEN HaltO(c.st, c.why)
+         ELSE CommitO(r.S, (St.n :> Scal(St.ty, c.v.w)) @@ Top.env, KAdv, r.fx)
+Decl == Is("decl") /\ Apply(DeclO)
 
-DeclArr ==
-    /\ Is("declarr")
-    /\ IF Len(St.init) > St.len THEN Halt("stuck", "too many initialisers")
-       ELSE LET r == InitElems(St.ty, St.len, St.init, 1, <<>>) IN
-            IF r.st # "ok" THEN Halt(r.st, r.why)
-            ELSE Commit(S0, (St.n :> Arr(St.ty, r.el)) @@ Top.env, KAdv, NoFx)
+DeclArrO ==
+    IF Len(St.init) > St.len THEN HaltO("stuck", "too many initialisers")
+    ELSE LET r == InitElems(St.ty, St.len, St.init, 1, <<>>) IN
+         IF r.st # "ok" THEN HaltO(r.st, r.why)
+         ELSE CommitO(S0, (St.n :> Arr(St.ty, r.el)) @@ Top.env, KAdv, NoFx)
+DeclArr == Is("declarr") /\ Apply(DeclArrO)
 
-ExprStmt ==
-    /\ Is("expr")
-    /\ LET r == Eval(St.e, X0, S0) IN
-       IF r.st # "ok" THEN Divert(r) ELSE Commit(r.S, Top.env, KAdv, r.fx)
+ExprStmtO == LET r == Eval(St.e, X0, S0) IN IF r.st # "ok" THEN DivertO(r) ELSE CommitO(r.S, Top.env, KAdv, r.fx)
+ExprStmt == Is("expr") /\ Apply(ExprStmtO)
 
 (* ---- assignment (6.5.16): simple, compound (E1 op= E2 is E1 = E1 op (E2), E1 evaluated once), ++ -- *)
-Assign ==
-    /\ Is("asg")
-    /\ LET l == LVal(St.lhs, X0, S0) IN
-       IF l.st # "ok" THEN Divert(l)
-       ELSE LET r == Eval(St.e, X0, l.S) IN
-            IF r.st # "ok" THEN Divert(r)
-            ELSE IF ~IsInt(r.v) THEN Halt("stuck", "pointer assigned to an integer")
-            ELSE LET lfx == IF St.op = "=" \/ l.obj = "" THEN l.fx ELSE Join(l.fx, Rd(l.obj)) IN
-                 IF Conflict(lfx, r.fx) THEN Halt("unspec", "operands of assignment interfere")
-                 ELSE LET z == IF St.op = "=" THEN OkV(r.v) ELSE Arith(BaseOp(St.op), l.cur, r.v) IN
-                      IF z.st # "ok" THEN Halt(z.st, z.why)
-                      ELSE LET c == Conv(z.v, l.cur.ty) IN                 \* 6.5.16.1p2: converted to the type of the lhs
-                           IF c.st # "ok" THEN Halt(c.st, c.why)
-                           ELSE LET sto == Store(l.loc, c.v.w, Top.env, r.S.gl) IN
-                                Commit([r.S EXCEPT !.gl = sto.gl], sto.env, KAdv,
-                                       Join(Join(lfx, r.fx), IF l.obj = "" THEN NoFx ELSE Wr(l.obj)))
+AssignO ==
+    LET l == LVal(St.lhs, X0, S0) IN
+    IF l.st # "ok" THEN DivertO(l)
+    ELSE LET r == Eval(St.e, X0, l.S) IN
+         IF r.st # "ok" THEN DivertO(r)
+         ELSE IF ~IsInt(r.v) THEN HaltO("stuck", "pointer assigned to an integer")
+         ELSE LET lfx == IF St.op = "=" \/ l.obj = "" THEN l.fx ELSE Join(l.fx, Rd(l.obj)) IN
+              IF Conflict(lfx, r.fx) THEN HaltO("unspec", "operands of assignment interfere")
+              ELSE LET z == IF St.op = "=" THEN OkV(r.v) ELSE Arith(BaseOp(St.op), l.cur, r.v) IN
+                   IF z.st # "ok" THEN HaltO(z.st, z.why)
+                   ELSE LET c == Conv(z.v, l.cur.ty) IN                 \* 6.5.16.1p2: converted to the type of the lhs
+                        IF c.st # "ok" THEN HaltO(c.st, c.why)
+                        ELSE LET sto == Store(l.loc, c.v.w, Top.env, r.S.gl) IN
+                             CommitO([r.S EXCEPT !.gl = sto.gl], sto.env, KAdv,
+                                     Join(Join(lfx, r.fx), IF l.obj = "" THEN NoFx ELSE Wr(l.obj)))
+Assign == Is("asg") /\ Apply(AssignO)
 
-IncDec ==
-    /\ Is("inc")
-    /\ LET l == LVal(St.lhs, X0, S0) IN
-       IF l.st # "ok" THEN Divert(l)
-       ELSE LET z == Arith(IF St.op = "++" THEN "+" ELSE "-", l.cur, OneV) IN      \* 6.5.2.4, 6.5.3.1: E += 1
-            IF z.st # "ok" THEN Halt(z.st, z.why)
-            ELSE LET c == Conv(z.v, l.cur.ty) IN
-                 IF c.st # "ok" THEN Halt(c.st, c.why)
-                 ELSE LET sto == Store(l.loc, c.v.w, Top.env, l.S.gl) IN
-                      Commit([l.S EXCEPT !.gl = sto.gl], sto.env, KAdv,
-                             IF l.obj = "" THEN l.fx ELSE Join(l.fx, Join(Rd(l.obj), Wr(l.obj))))
+IncDecO ==
+    LET l == LVal(St.lhs, X0, S0) IN
+    IF l.st # "ok" THEN DivertO(l)
+    ELSE LET z == Arith(IF St.op = "++" THEN "+" ELSE "-", l.cur, OneV) IN      \* 6.5.2.4, 6.5.3.1: E += 1
+         IF z.st # "ok" THEN HaltO(z.st, z.why)
+         ELSE LET c == Conv(z.v, l.cur.ty) IN
+              IF c.st # "ok" THEN HaltO(c.st, c.why)
+              ELSE LET sto == Store(l.loc, c.v.w, Top.env, l.S.gl) IN
+                   CommitO([l.S EXCEPT !.gl = sto.gl], sto.env, KAdv,
+                           IF l.obj = "" THEN l.fx ELSE Join(l.fx, Join(Rd(l.obj), Wr(l.obj))))
+IncDec == Is("inc") /\ Apply(IncDecO)
 
 (* ---- selection and iteration (6.8.4, 6.8.5) ---------------------------------------- *)
-If ==
-    /\ Is("if")
-    /\ LET r == Eval(St.c, X0, S0) IN
-       IF r.st # "ok" THEN Divert(r)
-       ELSE IF ~IsInt(r.v) THEN Halt("stuck", "pointer condition")
-       ELSE Commit(r.S, Top.env, Append(KAdv, Blk(IF Truth(r.v) THEN St.t ELSE St.f)), r.fx)
+IfO ==
+    LET r == Eval(St.c, X0, S0) IN
+    IF r.st # "ok" THEN DivertO(r)
+    ELSE IF ~IsInt(r.v) THEN HaltO("stuck", "pointer condition")
+    ELSE CommitO(r.S, Top.env, Append(KAdv, Blk(IF Truth(r.v) THEN St.t ELSE St.f)), r.fx)
+If == Is("if") /\ Apply(IfO)
 
-SeqStmt == Is("seq") /\ Commit(S0, Top.env, Append(KAdv, Blk(St.b)), NoFx)
+SeqStmt == Is("seq") /\ Apply(CommitO(S0, Top.env, Append(KAdv, Blk(St.b)), NoFx))
 
 Loop(c, b) == [k |-> "loop", c |-> c, b |-> b]
-While == Is("while") /\ Commit(S0, Top.env, Append(KAdv, Loop(St.c, St.b)), NoFx)
-DoWhile == Is("dowhile") /\ Commit(S0, Top.env, Append(Append(KAdv, Loop(St.c, St.b)), Blk(St.b)), NoFx)
+While == Is("while") /\ Apply(CommitO(S0, Top.env, Append(KAdv, Loop(St.c, St.b)), NoFx))
+DoWhile == Is("dowhile") /\ Apply(CommitO(S0, Top.env, Append(Append(KAdv, Loop(St.c, St.b)), Blk(St.b)), NoFx))
 \* the loop marker is on top: the body (or a continue) has finished; evaluate the controlling expression
-LoopTest ==
-    /\ AtItem("loop")
-    /\ LET r == Eval(It.c, X0, S0) IN
-       IF r.st # "ok" THEN Divert(r)
-       ELSE IF ~IsInt(r.v) THEN Halt("stuck", "pointer condition")
-       ELSE Commit(r.S, Top.env, IF Truth(r.v) THEN Append(K, Blk(It.b)) ELSE KPop, r.fx)
+LoopTestO ==
+    LET r == Eval(It.c, X0, S0) IN
+    IF r.st # "ok" THEN DivertO(r)
+    ELSE IF ~IsInt(r.v) THEN HaltO("stuck", "pointer condition")
+    ELSE CommitO(r.S, Top.env, IF Truth(r.v) THEN Append(K, Blk(It.b)) ELSE KPop, r.fx)
+LoopTest == AtItem("loop") /\ Apply(LoopTestO)
 
 \* for (int v = lo; v < hi; v++) body
-For ==
-    /\ Is("for")
-    /\ LET c == InitConv(St.lo, "i32") IN
-       IF c.st # "ok" THEN Halt(c.st, c.why)
-       ELSE Commit(S0, (St.v :> Scal("i32", c.v.w)) @@ Top.env,
-                   Append(KAdv, [k |-> "for", v |-> St.v, hi |-> St.hi, b |-> St.b, inc |-> FALSE]), NoFx)
-ForTest ==
-    /\ AtItem("for")
-    /\ LET cur == IV("i32", Top.env[It.v].w)
-           z == IF It.inc THEN Arith("+", cur, OneV) ELSE OkV(cur)
-       IN IF z.st # "ok" THEN Halt(z.st, z.why)
-          ELSE LET env1 == [Top.env EXCEPT ![It.v] = [@ EXCEPT !.w = z.v.w]]
-                   r == Eval([k |-> "bin", op |-> "<", a |-> [k |-> "var", n |-> It.v], b |-> It.hi],
-                             [X0 EXCEPT !.env = env1], S0)
-               IN IF r.st # "ok" THEN Divert(r)
-                  ELSE Commit(r.S, env1,
-                              IF Truth(r.v) THEN Append([K EXCEPT ![Len(K)] = [@ EXCEPT !.inc = TRUE]], Blk(It.b)) ELSE KPop,
-                              r.fx)
+ForO ==
+    LET c == InitConv(St.lo, "i32") IN
+    IF c.st # "ok" THEN HaltO(c.st, c.why)
+    ELSE CommitO(S0, (St.v :> Scal("i32", c.v.w)) @@ Top.env,
+                 Append(KAdv, [k |-> "for", v |-> St.v, hi |-> St.hi, b |-> St.b, inc |-> FALSE]), NoFx)
+For == Is("for") /\ Apply(ForO)
+ForTestO ==
+    LET cur == IV("i32", Top.env[It.v].w)
+        z == IF It.inc THEN Arith("+", cur, OneV) ELSE OkV(cur)
+    IN IF z.st # "ok" THEN HaltO(z.st, z.why)
+       ELSE LET env1 == [Top.env EXCEPT ![It.v] = [@ EXCEPT !.w = z.v.w]]
+                r == Eval([k |-> "bin", op |-> "<", a |-> [k |-> "var", n |-> It.v], b |-> It.hi],
+                          [X0 EXCEPT !.env = env1], S0)
+            IN IF r.st # "ok" THEN DivertO(r)
+               ELSE CommitO(r.S, env1,
+                            IF Truth(r.v) THEN Append([K EXCEPT ![Len(K)] = [@ EXCEPT !.inc = TRUE]], Blk(It.b)) ELSE KPop,
+                            r.fx)
+ForTest == AtItem("for") /\ Apply(ForTestO)
 
 \* switch (6.8.4.2): controlling expression promoted, case constants converted to that type;
 \* jump to the matching case, else to default, else past the statement; then fall through
@@ -601,64 +618,53 @@ MatchCase(cases, w, t, j, dflt) ==
     ELSE IF cases[j].dflt THEN MatchCase(cases, w, t, j + 1, j)
     ELSE IF ConvW(cases[j].w, "i64", t) = w /\ Fits(cases[j].w, "i64", t) THEN j
     ELSE MatchCase(cases, w, t, j + 1, dflt)
-Switch ==
-    /\ Is("switch")
-    /\ LET r == Eval(St.e, X0, S0) IN
-       IF r.st # "ok" THEN Divert(r)
-       ELSE IF ~IsInt(r.v) THEN Halt("stuck", "pointer switch expression")
-       ELSE LET t == Promote(r.v.ty)
-                j == MatchCase(St.cases, ConvW(r.v.w, r.v.ty, t), t, 1, 0)
-            IN Commit(r.S, Top.env,
-                      IF j = 0 THEN KAdv ELSE Append(KAdv, [k |-> "sw", cases |-> St.cases, j |-> j, ph |-> "body"]), r.fx)
+SwitchO ==
+    LET r == Eval(St.e, X0, S0) IN
+    IF r.st # "ok" THEN DivertO(r)
+    ELSE IF ~IsInt(r.v) THEN HaltO("stuck", "pointer switch expression")
+    ELSE LET t == Promote(r.v.ty)
+             j == MatchCase(St.cases, ConvW(r.v.w, r.v.ty, t), t, 1, 0)
+         IN CommitO(r.S, Top.env,
+                    IF j = 0 THEN KAdv ELSE Append(KAdv, [k |-> "sw", cases |-> St.cases, j |-> j, ph |-> "body"]), r.fx)
+Switch == Is("switch") /\ Apply(SwitchO)
 \* the switch marker is on top: run the body of case j, then either leave (rendered `break;`) or fall through
 SwitchStep ==
     /\ AtItem("sw")
-    /\ Commit(S0, Top.env,
+    /\ Apply(CommitO(S0, Top.env,
               IF It.j > Len(It.cases) THEN KPop
               ELSE IF It.ph = "body" THEN Append([K EXCEPT ![Len(K)] = [@ EXCEPT !.ph = "brk"]], Blk(It.cases[It.j].b))
               ELSE IF It.cases[It.j].brk THEN KPop
               ELSE [K EXCEPT ![Len(K)] = [@ EXCEPT !.j = @ + 1, !.ph = "body"]],
-              NoFx)
+              NoFx))
 
 \* break / continue (6.8.6): unwind the continuation to the innermost enclosing construct
 RECURSIVE PopTo(_, _)
 PopTo(k, kinds) == IF Len(k) = 0 THEN k
                    ELSE IF k[Len(k)].k \in kinds THEN k ELSE PopTo(SubSeq(k, 1, Len(k) - 1), kinds)
-Break ==
-    /\ Is("break")
-    /\ LET k2 == PopTo(K, {"loop", "for", "sw"}) IN
-       IF Len(k2) = 0 THEN Halt("stuck", "break outside of a loop or switch")
-       ELSE Commit(S0, Top.env, SubSeq(k2, 1, Len(k2) - 1), NoFx)
-Continue ==
-    /\ Is("continue")
-    /\ LET k2 == PopTo(K, {"loop", "for"}) IN
-       IF Len(k2) = 0 THEN Halt("stuck", "continue outside of a loop")
-       ELSE Commit(S0, Top.env, k2, NoFx)
+BreakO == LET k2 == PopTo(K, {"loop", "for", "sw"}) IN
+          IF Len(k2) = 0 THEN HaltO("stuck", "break outside of a loop or switch")
+          ELSE CommitO(S0, Top.env, SubSeq(k2, 1, Len(k2) - 1), NoFx)
+Break == Is("break") /\ Apply(BreakO)
+ContinueO == LET k2 == PopTo(K, {"loop", "for"}) IN
+             IF Len(k2) = 0 THEN HaltO("stuck", "continue outside of a loop")
+             ELSE CommitO(S0, Top.env, k2, NoFx)
+Continue == Is("continue") /\ Apply(ContinueO)
 
 (* ---- return (6.8.6.4): value converted to the return type as if by assignment -------- *)
-Return ==
-    /\ Is("ret")
-    /\ LET r == Eval(St.e, X0, S0) IN
-       IF r.st # "ok" THEN Divert(r)
-       ELSE IF ~IsInt(r.v) THEN Halt("stuck", "pointer returned")
-       ELSE LET c == Conv(r.v, Fn.ret) IN
-            IF c.st # "ok" THEN Halt(c.st, c.why)
-            ELSE IF r.S.np # Len(Top.pend) THEN Halt("stuck", "replay consumed a different number of calls")
-            ELSE IF Len(stack) = 1
-            THEN /\ status' = "ok" /\ why' = "" /\ ret' = c.v.w /\ stack' = <<>>
-                 /\ glob' = r.S.gl /\ calls' = r.S.cl /\ steps' = steps + 1
-            ELSE LET n == Len(stack) - 1 IN
-                 /\ stack' = [SubSeq(stack, 1, n) EXCEPT ![n] =
-                                 [@ EXCEPT !.pend = Append(@, [v |-> c.v, gl |-> r.S.gl, cl |-> r.S.cl,
-                                                                fx |-> Join(Top.fx, r.fx)])]]
-                 /\ glob' = r.S.gl /\ calls' = r.S.cl /\ steps' = steps + 1
-                 /\ UNCHANGED <<status, why, ret>>
+ReturnO ==
+    LET r == Eval(St.e, X0, S0) IN
+    IF r.st # "ok" THEN DivertO(r)
+    ELSE IF ~IsInt(r.v) THEN HaltO("stuck", "pointer returned")
+    ELSE LET c == Conv(r.v, Fn.ret) IN
+         IF c.st # "ok" THEN HaltO(c.st, c.why)
+         ELSE [t |-> "ret", v |-> c.v, S |-> r.S, fx |-> r.fx]
+Return == Is("ret") /\ Apply(ReturnO)
 
 \* end of a statement list; falling off the end of a function whose value is used is undefined (6.9.1p12)
 BlockEnd ==
     /\ AtItem("blk") /\ It.ix > Len(It.ss)
-    /\ IF Len(K) = 1 THEN Halt("undefined", "control reaches the end of a non-void function")
-       ELSE Commit(S0, Top.env, KPop, NoFx)
+    /\ Apply(IF Len(K) = 1 THEN HaltO("undefined", "control reaches the end of a non-void function")
+             ELSE CommitO(S0, Top.env, KPop, NoFx))
 
 StmtKinds == {"decl", "declarr", "expr", "asg", "inc", "if", "seq", "while", "dowhile", "for", "switch",
               "break", "continue", "ret"}
